@@ -92,10 +92,15 @@ func drive(ck *checks.Check, tier string) int {
 	if ck.Pre != nil {
 		ck.Pre(tier)
 	}
-	for i := 0; i < n; i++ {
+	for i := 0; i < n+ck.OSShards; i++ {
 		wg.Add(1)
 		go func(i int) {
 			defer wg.Done()
+			// the shards after the first n run the part of the check that needs the avfs_setostype build
+			bin, si, sn, part := self, i, n, ""
+			if i >= n {
+				bin, si, sn, part = filepath.Join(filepath.Dir(self), "vcheck-os"), i-n, ck.OSShards, "os"
+			}
 			scratch := ""
 			if ck.Chroot {
 				scratch = fmt.Sprintf("/dev/shm/verif.%d.%s.%d", os.Getpid(), ck.Prop, i)
@@ -108,8 +113,8 @@ func drive(ck *checks.Check, tier string) int {
 				}
 				defer os.RemoveAll(scratch)
 			}
-			cmd := exec.Command(self, "-worker", ck.Prop, tier, strconv.Itoa(i), strconv.Itoa(n))
-			cmd.Env = append(os.Environ(), "VERIF_SCRATCH="+scratch, "GOTRACEBACK=all")
+			cmd := exec.Command(bin, "-worker", ck.Prop, tier, strconv.Itoa(si), strconv.Itoa(sn))
+			cmd.Env = append(os.Environ(), "VERIF_SCRATCH="+scratch, "GOTRACEBACK=all", "VERIF_PART="+part)
 			if ck.Env != nil {
 				cmd.Env = append(cmd.Env, ck.Env(i)...)
 			}
